@@ -146,7 +146,7 @@ fn bt4_find_matches_step<const WB: usize>(dict: u32, mlm: u32, nice_len: u32, de
     core::mem::forget(m);
 }
 
-//@ {"name":"c01h_bt4_find_matches_sound","tier":"thorough","props":["C01","C15","C13"],"obligation":"C01-H","stubbing":true,"stubs":["Hash234 table accessors -> environment stub (harness/api_hash234.rs)"],"timeout":7200,"mem_gb":9,"feature_variants":["encoder","encoder,optimization"],"functions":["lz::bt4::BT4::find_matches","lz::bt4::BT4::move_pos","lz::bt4::BT4::new","lz::hash234::Hash234::calc_hashes","lz::hash234::Hash234::update_tables","lz::lz_encoder::LZEncoderData::move_pos","lz::extend_match","lz::extend_match_safe"],"bounds":"dictionary 12 (cyclic_size 13), 40-byte window with arbitrary content, match_len_max 8, nice_len 8, depth limit 2; any read_pos/write_pos/finishing/pending, any lz_pos in [cyclic_size, 2^31-3], any cyclic_pos; one arbitrary admissible entry per hash table, two tree slots (all the call can read); unwind 12","assumes":["table invariant T1-T4 (harness/mf_hc4.rs header)","no position renormalisation in this step"]}
+//@ {"replay":"model","name":"c01h_bt4_find_matches_sound","tier":"thorough","props":["C01","C15","C13"],"obligation":"C01-H","stubbing":true,"stubs":["Hash234 table accessors -> environment stub (harness/api_hash234.rs)"],"timeout":7200,"mem_gb":9,"feature_variants":["encoder","encoder,optimization"],"functions":["lz::bt4::BT4::find_matches","lz::bt4::BT4::move_pos","lz::bt4::BT4::new","lz::hash234::Hash234::calc_hashes","lz::hash234::Hash234::update_tables","lz::lz_encoder::LZEncoderData::move_pos","lz::extend_match","lz::extend_match_safe"],"bounds":"dictionary 12 (cyclic_size 13), 40-byte window with arbitrary content, match_len_max 8, nice_len 8, depth limit 2; any read_pos/write_pos/finishing/pending, any lz_pos in [cyclic_size, 2^31-3], any cyclic_pos; one arbitrary admissible entry per hash table, two tree slots (all the call can read); unwind 12","assumes":["table invariant T1-T4 (harness/mf_hc4.rs header)","no position renormalisation in this step"]}
 #[kani::proof]
 #[kani::unwind(12)]
 #[kani::stub(crate::lz::hash234::Hash234::get_hash2_pos, crate::lz::hash234::verif_h234::get2)]
@@ -157,7 +157,7 @@ fn c01h_bt4_find_matches_sound() {
     bt4_find_matches_step::<40>(12, 8, 8, 2, true);
 }
 
-//@ {"name":"c01h_bt4_find_matches_lite","props":["C01","C15","C13"],"obligation":"C01-H","stubbing":true,"stubs":["Hash234 table accessors -> environment stub (harness/api_hash234.rs)"],"timeout":1800,"mem_gb":9,"feature_variants":["encoder,optimization"],"functions":["lz::bt4::BT4::find_matches","lz::bt4::BT4::move_pos","lz::bt4::BT4::new","lz::hash234::Hash234::calc_hashes","lz::lz_encoder::LZEncoderData::move_pos","lz::extend_match","lz::extend_match_safe"],"bounds":"dictionary 6 (cyclic_size 7), 20-byte window with arbitrary content, match_len_max 5, nice_len 5, depth limit 1; otherwise as c01h_bt4_find_matches_sound; unwind 12","assumes":["table invariant T1-T4 (harness/mf_hc4.rs header)","no position renormalisation in this step"]}
+//@ {"replay":"model","name":"c01h_bt4_find_matches_lite","props":["C01","C15","C13"],"obligation":"C01-H","stubbing":true,"stubs":["Hash234 table accessors -> environment stub (harness/api_hash234.rs)"],"timeout":1800,"mem_gb":9,"feature_variants":["encoder,optimization"],"functions":["lz::bt4::BT4::find_matches","lz::bt4::BT4::move_pos","lz::bt4::BT4::new","lz::hash234::Hash234::calc_hashes","lz::lz_encoder::LZEncoderData::move_pos","lz::extend_match","lz::extend_match_safe"],"bounds":"dictionary 6 (cyclic_size 7), 20-byte window with arbitrary content, match_len_max 5, nice_len 5, depth limit 1; otherwise as c01h_bt4_find_matches_sound; unwind 12","assumes":["table invariant T1-T4 (harness/mf_hc4.rs header)","no position renormalisation in this step"]}
 #[kani::proof]
 #[kani::unwind(12)]
 #[kani::stub(crate::lz::hash234::Hash234::get_hash2_pos, crate::lz::hash234::verif_h234::get2)]
@@ -168,7 +168,7 @@ fn c01h_bt4_find_matches_lite() {
     bt4_find_matches_step::<20>(6, 5, 5, 1, true);
 }
 
-//@ {"name":"c15e_bt4_find_matches_depth3_bounds","wip":true,"props":["C15","C01"],"obligation":"C15-E","stubbing":true,"stubs":["Hash234 table accessors -> environment stub (harness/api_hash234.rs)"],"tier":"thorough","timeout":3600,"mem_gb":9,"feature_variants":["encoder,optimization"],"functions":["lz::bt4::BT4::find_matches"],"bounds":"as c01h_bt4_find_matches_sound with depth limit 3, nice_len 4; only bounds / memory safety asserted (the tree ordering invariant is not assumed)","assumes":["table invariant T1, T2, T4","no renormalisation in this step"]}
+//@ {"replay":"model","name":"c15e_bt4_find_matches_depth3_bounds","wip":true,"props":["C15","C01"],"obligation":"C15-E","stubbing":true,"stubs":["Hash234 table accessors -> environment stub (harness/api_hash234.rs)"],"tier":"thorough","timeout":3600,"mem_gb":9,"feature_variants":["encoder,optimization"],"functions":["lz::bt4::BT4::find_matches"],"bounds":"as c01h_bt4_find_matches_sound with depth limit 3, nice_len 4; only bounds / memory safety asserted (the tree ordering invariant is not assumed)","assumes":["table invariant T1, T2, T4","no renormalisation in this step"]}
 #[kani::proof]
 #[kani::unwind(12)]
 #[kani::stub(crate::lz::hash234::Hash234::get_hash2_pos, crate::lz::hash234::verif_h234::get2)]
@@ -179,7 +179,7 @@ fn c15e_bt4_find_matches_depth3_bounds() {
     bt4_find_matches_step::<40>(12, 8, 4, 3, false);
 }
 
-//@ {"name":"c01h_bt4_skip","tier":"thorough","props":["C01","C15"],"obligation":"C01-H","stubbing":true,"stubs":["Hash234 table accessors -> environment stub (harness/api_hash234.rs)"],"timeout":5400,"mem_gb":9,"functions":["lz::bt4::BT4::skip","lz::bt4::BT4::move_pos"],"bounds":"skip length 0..=1 (symbolic), depth limit 2, nice_len 8, same state space as c01h_bt4_find_matches_sound; unwind 12","assumes":["table invariant T1, T2, T4","no renormalisation in these steps"]}
+//@ {"replay":"model","name":"c01h_bt4_skip","tier":"thorough","props":["C01","C15"],"obligation":"C01-H","stubbing":true,"stubs":["Hash234 table accessors -> environment stub (harness/api_hash234.rs)"],"timeout":5400,"mem_gb":9,"functions":["lz::bt4::BT4::skip","lz::bt4::BT4::move_pos"],"bounds":"skip length 0..=1 (symbolic), depth limit 2, nice_len 8, same state space as c01h_bt4_find_matches_sound; unwind 12","assumes":["table invariant T1, T2, T4","no renormalisation in these steps"]}
 #[kani::proof]
 #[kani::unwind(12)]
 #[kani::stub(crate::lz::hash234::Hash234::get_hash2_pos, crate::lz::hash234::verif_h234::get2)]
@@ -230,7 +230,7 @@ fn verif_record_normalize(positions: &mut [i32], norm_offset: i32) {
     }
 }
 
-//@ {"name":"c01h_bt4_renormalise_step","props":["C01","C14"],"obligation":"C01-H","timeout":900,"mem_gb":9,"stubbing":true,"functions":["lz::bt4::BT4::move_pos","lz::hash234::Hash234::normalize"],"bounds":"lz_pos = 0x7FFFFFFE before the step; 40-byte window","assumes":["LZEncoder::normalize replaced by a recorder (its element formula is decided by c14c_normalize_*)"],"stubs":["LZEncoder::normalize -> recorder"]}
+//@ {"replay":"model","name":"c01h_bt4_renormalise_step","props":["C01","C14"],"obligation":"C01-H","timeout":900,"mem_gb":9,"stubbing":true,"functions":["lz::bt4::BT4::move_pos","lz::hash234::Hash234::normalize"],"bounds":"lz_pos = 0x7FFFFFFE before the step; 40-byte window","assumes":["LZEncoder::normalize replaced by a recorder (its element formula is decided by c14c_normalize_*)"],"stubs":["LZEncoder::normalize -> recorder"]}
 #[kani::proof]
 #[kani::unwind(12)]
 #[kani::stub(crate::lz::lz_encoder::LZEncoder::normalize, verif_record_normalize)]
